@@ -288,3 +288,8 @@ Definition conc_stats (c : conc_case) : nat * nat * nat :=
   (length (filter (fun k => Nat.ltb 1 (length (epochs k es []))) (nodup N.eq_dec keys)),
    length (filter is_dup es),
    length (flat_map (fun e => match e with ESweep _ _ _ ks => ks | _ => [] end) es)).
+
+(** the API-level history (call intervals measured by the harness, answers read off the
+    outcomes; no hook involved) against [api_ok] *)
+Definition api_violations (cs : list (Z * list acall)) : list nat :=
+  positions (map (fun c => negb (api_ok (fst c) (snd c))) cs).
